@@ -136,7 +136,11 @@ type obsState struct {
 
 // Run executes one scenario on the real library and returns the recorded trace.
 func Run(t int, sc Scenario, seed int64) []rec.Ev {
-	lg := &rec.Log{T: t}
+	return RunWithLog(&rec.Log{T: t}, sc, seed)
+}
+
+// RunWithLog is Run with a caller-supplied log (so that a watchdog can read the events recorded so far).
+func RunWithLog(lg *rec.Log, sc Scenario, seed int64) []rec.Ev {
 	isSubj := sc.Kind[:4] == "subj"
 	hs := "obs"
 	if isSubj {
